@@ -68,6 +68,18 @@ def runtime_exec(rng, big=False):
         rng.shuffle(cells)
         for (t, c) in cells:
             L.append("look %s %d %d %d" % (rng.choice(HOWS), t, c, rng.randrange(MEMBERS[c])))
+        # ... also when the LAST question before and the FIRST question after the reconstruction are the same (type, class) pair and the
+        # answer has changed (an answer remembered by address is then the wrong one)
+        for t in ts:
+            for how in ("timpl", "impl", "tinst", "timplm"):
+                c = rng.randrange(NC); m = rng.randrange(MEMBERS[c])
+                for has in (True, False, True):
+                    others = [x for x in (rng.randrange(NC) for _ in range(rng.choice([0, 2, 5]))) if x != c]
+                    cl = others + ([c] if has else [])
+                    rng.shuffle(cl)
+                    L.append("rert %d %s" % (t, " ".join(map(str, cl))))
+                    L.append("decl %d" % t)
+                    L.append("look %s %d %d %d" % (how, t, c, m))
     for _ in range(6):
         a, b = rng.randrange(NB), rng.randrange(NB)
         L.append("cast %d %d" % (a, b if rng.random() < 0.7 else a))
